@@ -16,6 +16,7 @@ import (
 
 	"cuelang.org/go/internal/par"
 	"cuelang.org/go/internal/robustio"
+	"cuelang.org/go/internal/verifhook"
 	"cuelang.org/go/mod/modfile"
 	"cuelang.org/go/mod/modregistry"
 	"cuelang.org/go/mod/module"
@@ -96,6 +97,7 @@ func (c *Cache) FetchFromCache(mv module.Version) (module.SourceLoc, error) {
 // version, downloading it if necessary.
 func (c *Cache) Fetch(ctx context.Context, mv module.Version) (module.SourceLoc, error) {
 	dir, err := c.downloadDir(mv)
+	verifhook.At("F_CheckDir", err == nil)
 	if err == nil {
 		// The directory has already been completely extracted (no .partial file exists).
 		return c.dirToLocation(dir), nil
@@ -117,9 +119,12 @@ func (c *Cache) Fetch(ctx context.Context, mv module.Version) (module.SourceLoc,
 		return module.SourceLoc{}, err
 	}
 	defer unlock()
+	verifhook.At("F_Lock")
+	defer verifhook.At("F_Unlock")
 
 	// Check whether the directory was populated while we were waiting on the lock.
 	_, dirErr := c.downloadDir(mv)
+	verifhook.At("F_Recheck", dirErr == nil)
 	if dirErr == nil {
 		return c.dirToLocation(dir), nil
 	}
@@ -142,6 +147,7 @@ func (c *Cache) Fetch(ctx context.Context, mv module.Version) (module.SourceLoc,
 		if err := RemoveAll(dir); err != nil {
 			return module.SourceLoc{}, err
 		}
+		verifhook.At("F_RemoveDir")
 	}
 
 	partialPath, err := c.cachePath(mv, "partial")
@@ -170,15 +176,18 @@ func (c *Cache) Fetch(ctx context.Context, mv module.Version) (module.SourceLoc,
 	if err := robustio.WriteFile(partialPath, nil, 0666); err != nil {
 		return module.SourceLoc{}, err
 	}
+	verifhook.At("F_WritePartial")
 	if err := modzip.Unzip(dir, mv, zipfile); err != nil {
 		if rmErr := RemoveAll(dir); rmErr == nil {
 			os.Remove(partialPath)
 		}
+		verifhook.At("F_UnzipFail")
 		return module.SourceLoc{}, err
 	}
 	if err := os.Remove(partialPath); err != nil {
 		return module.SourceLoc{}, err
 	}
+	verifhook.At("F_RemovePartial")
 	makeDirsReadOnly(dir)
 	return c.dirToLocation(dir), nil
 }
@@ -198,14 +207,18 @@ func (c *Cache) downloadZip(ctx context.Context, mv module.Version) (zipfile str
 
 		// Return without locking if the zip file exists.
 		if _, err := os.Stat(zipfile); err == nil {
+			verifhook.At("Z_Stat1", true)
 			return zipfile, nil
 		}
+		verifhook.At("Z_Stat1", false)
 		logf("cue: downloading %s", mv)
 		unlock, err := c.lockVersion(mv)
 		if err != nil {
 			return "", err
 		}
 		defer unlock()
+		verifhook.At("Z_Lock")
+		defer verifhook.At("Z_Unlock")
 
 		if err := c.downloadZip1(ctx, mv, zipfile); err != nil {
 			return "", err
@@ -218,8 +231,10 @@ func (c *Cache) downloadZip1(ctx context.Context, mod module.Version, zipfile st
 	// Double-check that the zipfile was not created while we were waiting for
 	// the lock in downloadZip.
 	if _, err := os.Stat(zipfile); err == nil {
+		verifhook.At("Z_Stat2", true)
 		return nil
 	}
+	verifhook.At("Z_Stat2", false)
 
 	// Create parent directories.
 	if err := os.MkdirAll(filepath.Dir(zipfile), 0777); err != nil {
@@ -235,6 +250,7 @@ func (c *Cache) downloadZip1(ctx context.Context, mod module.Version, zipfile st
 			os.Remove(path) // best effort
 		}
 	}
+	verifhook.At("Z_CleanTmp")
 
 	// From here to the os.Rename call below is functionally almost equivalent to
 	// renameio.WriteToFile. We avoid using that so that we have control over the
@@ -244,10 +260,12 @@ func (c *Cache) downloadZip1(ctx context.Context, mod module.Version, zipfile st
 	if err != nil {
 		return err
 	}
+	verifhook.At("Z_CreateTmp")
 	defer func() {
 		if err != nil {
 			f.Close()
 			os.Remove(f.Name())
+			verifhook.At("Z_Fail")
 		}
 	}()
 
@@ -268,9 +286,11 @@ func (c *Cache) downloadZip1(ctx context.Context, mod module.Version, zipfile st
 	if err := f.Close(); err != nil {
 		return err
 	}
+	verifhook.At("Z_Copied")
 	if err := os.Rename(f.Name(), zipfile); err != nil {
 		return err
 	}
+	verifhook.At("Z_Rename")
 	// TODO should we check the zip file for well-formedness?
 	// TODO: Should we make the .zip file read-only to discourage tampering?
 	return nil
@@ -278,6 +298,7 @@ func (c *Cache) downloadZip1(ctx context.Context, mod module.Version, zipfile st
 
 func (c *Cache) fetchModFileData(ctx context.Context, mod module.Version) ([]byte, error) {
 	modfile, data, err := c.readDiskModFile(mod)
+	verifhook.At("M_Read1", err == nil)
 	if err == nil {
 		return data, nil
 	}
@@ -287,9 +308,12 @@ func (c *Cache) fetchModFileData(ctx context.Context, mod module.Version) ([]byt
 		return nil, err
 	}
 	defer unlock()
+	verifhook.At("M_Lock")
+	defer verifhook.At("M_Unlock")
 	// Double-check that the file hasn't been created while we were
 	// acquiring the lock.
 	_, data, err = c.readDiskModFile(mod)
+	verifhook.At("M_Read2", err == nil)
 	if err == nil {
 		return data, nil
 	}
